@@ -151,6 +151,36 @@ theorem v1_limit_and_utf8 (x : B) :
     (∀ n, windowLength x = some n → Utf8.valid (x.take n) = false → parseBytes x = .error .invalidUtf8) :=
   ⟨G8_window_none, fun _ h hn hl hv => G8_parseBytes_too_long h hn hl hv, fun _ h hv => G9_invalid_utf8 h hv⟩
 
+/-! ### the same for TCP6 lines and for UNKNOWN lines -/
+
+open V1 V1.Blame in
+theorem v1_tcp6 {sa da sp dp : B} {c : UInt8}
+    (hsa : sepFree sa) (hda : sepFree da) (hsp : sepFree sp) (hdp : sepFree dp)
+    (hlen : (tcpLine PROXY TCP6 sa da sp dp [CR, c]).length ≤ 107) :
+    (StdNet.parseIpv6 sa = none → Blamed (tcpLine PROXY TCP6 sa da sp dp [CR, c]) .invalidSourceAddress) ∧
+    (∀ a, StdNet.parseIpv6 sa = some a → StdNet.parseIpv6 da = none →
+      Blamed (tcpLine PROXY TCP6 sa da sp dp [CR, c]) .invalidDestinationAddress) ∧
+    (∀ a b k, StdNet.parseIpv6 sa = some a → StdNet.parseIpv6 da = some b → parsePort sp = .error k →
+      Blamed (tcpLine PROXY TCP6 sa da sp dp [CR, c]) (.invalidSourcePort k)) ∧
+    (∀ a b p k, StdNet.parseIpv6 sa = some a → StdNet.parseIpv6 da = some b → parsePort sp = .ok p →
+      parsePort dp = .error k → Blamed (tcpLine PROXY TCP6 sa da sp dp [CR, c]) (.invalidDestinationPort k)) ∧
+    (∀ a b p q, StdNet.parseIpv6 sa = some a → StdNet.parseIpv6 da = some b → parsePort sp = .ok p →
+      parsePort dp = .ok q → c ≠ LF → Blamed (tcpLine PROXY TCP6 sa da sp dp [CR, c]) .invalidSuffix) :=
+  ⟨fun h => G3_source_tcp6_entry hsa hda hsp hdp h hlen,
+   fun _ hs h => G4_destination_tcp6_entry hsa hda hsp hdp hs h hlen,
+   fun _ _ _ hs hd h => G5_source_port_tcp6_entry hsa hda hsp hdp hs hd h hlen,
+   fun _ _ _ _ hs hd hp h => G6_destination_port_tcp6_entry hsa hda hsp hdp hs hd hp h hlen,
+   fun _ _ _ _ hs hd hp hq hc => G7_suffix_tcp6_entry hsa hda hsp hdp hs hd hp hq hc hlen⟩
+
+open V1 V1.Blame in
+theorem v1_unknown {kw tail : B} {c : UInt8} (hcr : crFree tail) :
+    (sepFree kw → kw ≠ PROXY → (kw ++ [SP] ++ UNKNOWN ++ tail ++ [CR, LF]).length ≤ 107 →
+      Blamed (kw ++ [SP] ++ UNKNOWN ++ tail ++ [CR, LF]) .invalidPrefix) ∧
+    ((tail = [] ∨ tail.head? = some SP) → c ≠ LF → (PROXY ++ [SP] ++ UNKNOWN ++ tail ++ [CR, c]).length ≤ 107 →
+      Blamed (PROXY ++ [SP] ++ UNKNOWN ++ tail ++ [CR, c]) .invalidSuffix) :=
+  ⟨fun hkw hne hlen => G1_keyword_unknown_entry hkw hne hcr hlen,
+   fun ht hc hlen => G7_suffix_unknown_entry ht hcr hc hlen⟩
+
 /-- A blamed text line is terminal through the auto-detecting parser as well
 (a text line does not start with the CR of the v2 signature). -/
 theorem v1_auto_terminal {line : B} {e : V1.ParseError} (hb : V1.Blame.Blamed line e) (rest : B)
